@@ -6,6 +6,7 @@ import (
 	"sort"
 	"strings"
 	"sync"
+	"unicode"
 
 	"golang.org/x/tools/go/ssa"
 )
@@ -67,9 +68,77 @@ func checkDiscovered(got, occurrences []string) string {
 		seen[g] = true
 	}
 	if fmt.Sprint(foldUnique(got)) != fmt.Sprint(foldUnique(occurrences)) {
-		return fmt.Sprintf("reported %q; the identifiers in variable position, in order of first occurrence, are %q", got, occurrences)
+		kw := ""
+		for _, g := range got {
+			isOcc := false
+			for _, o := range occurrences {
+				isOcc = isOcc || strings.EqualFold(o, g)
+			}
+			if gxKeywords[strings.ToUpper(g)] && !isOcc {
+				kw = fmt.Sprintf(" - %q is a keyword of the language in any letter case, never a variable", g)
+			}
+		}
+		return fmt.Sprintf("reported %q; the identifiers in variable position, in order of first occurrence, are %q%s", got, occurrences, kw)
 	}
 	return ""
+}
+
+// refIdentifiers: the identifiers in variable position of a token string, in order of occurrence, as the
+// reference grammar places them; ok=false when the string is no sentence.
+func refIdentifiers(ls []lexeme) (names []string, ok bool) {
+	acc, rpn := gxReference(ls)
+	if !acc {
+		return nil, false
+	}
+	var cols []int
+	for _, t := range rpn {
+		if strings.HasPrefix(t, "Variable@") {
+			var col int
+			fmt.Sscanf(t, "Variable@%d", &col)
+			cols = append(cols, col)
+		}
+	}
+	sort.Ints(cols)
+	for _, col := range cols {
+		names = append(names, ls[col-1].text)
+	}
+	return names, true
+}
+
+// namexKeywordSentences: every keyword of the language, in upper, lower, capitalised and alternating letter
+// case, in each position the grammar gives it (operator, second word of a two-word operator, operand), next
+// to real identifiers: "never keywords" holds for each of them in whatever case it is written.
+func namexKeywordSentences() []string {
+	frames := map[string][]string{
+		"AND":   {"x § y", "x § y § Z"},
+		"OR":    {"x § y", "f ( x § y ) § z"},
+		"XOR":   {"x § y", "x § y § X"},
+		"NOT":   {"§ x", "x AND § y", "x § LIKE y", "x § IN y", "x IS § NULL"},
+		"LIKE":  {"x § y", "x NOT § y"},
+		"IS":    {"x § NULL", "x § NOT NULL AND y"},
+		"IN":    {"x § y", "x NOT § y"},
+		"NULL":  {"x IS §", "x IS NOT § OR y", "x = §", "f ( § , y )"},
+		"TRUE":  {"x = §", "§ AND y", "f ( § , y )", "x [ § ]", "§"},
+		"FALSE": {"x = §", "§ OR y", "f ( y , § )", "x [ § ]", "§"},
+	}
+	var kws []string
+	for k := range frames {
+		kws = append(kws, k)
+	}
+	sort.Strings(kws)
+	var out []string
+	for _, kw := range kws {
+		alt := []rune(strings.ToLower(kw))
+		for i := 1; i < len(alt); i += 2 {
+			alt[i] = unicode.ToUpper(alt[i])
+		}
+		for _, form := range []string{kw, strings.ToLower(kw), kw[:1] + strings.ToLower(kw[1:]), string(alt)} {
+			for _, f := range frames[kw] {
+				out = append(out, strings.ReplaceAll(f, "§", form))
+			}
+		}
+	}
+	return out
 }
 
 type nameVerdicts struct {
@@ -160,32 +229,16 @@ func (c *Ctx) namexRun() *nameVerdicts {
 		for src := range quotedIdent {
 			exprs = append(exprs, src)
 		}
+		exprs = append(exprs, namexKeywordSentences()...)
 		sort.Strings(exprs)
 		for _, e := range exprs {
 			ls := lexemes(e)
 			if ref, ok := quotedIdent[e]; ok {
 				ls = lexemes(ref)
 			}
-			acc, rpn := gxReference(ls)
+			want, acc := refIdentifiers(ls)
 			if !acc {
 				continue
-			}
-			type occ struct {
-				col  int
-				name string
-			}
-			var occs []occ
-			for _, t := range rpn {
-				if strings.HasPrefix(t, "Variable@") {
-					var col int
-					fmt.Sscanf(t, "Variable@%d", &col)
-					occs = append(occs, occ{col, ls[col-1].text})
-				}
-			}
-			sort.Slice(occs, func(i, j int) bool { return occs[i].col < occs[j].col })
-			var want []string
-			for _, o := range occs {
-				want = append(want, o.name)
 			}
 			m.steps = 0
 			noteSample("NAME.model/expressions", e)
@@ -264,16 +317,32 @@ func (c *Ctx) namexRun() *nameVerdicts {
 	ct := resultType(cctor)
 	newVar := c.MustFunc("calculator/variables", "", "NewVariable")
 	vfi := c.MustFunc(pkgVariants, "", "VariantFromInteger")
-	for _, tc := range []struct {
+	type autoCase struct {
 		pre  []string
 		expr string
 		want []string
-	}{
+	}
+	autoCases := []autoCase{
 		{nil, "a + b + A", []string{"a", "b"}},
 		{[]string{"B"}, "a + b + A", []string{"b", "a"}},
 		{[]string{"x", "A"}, "f ( a ) + y", []string{"x", "a", "y"}},
 		{[]string{"q"}, "1 + 2", []string{"q"}},
-	} {
+	}
+	// keywords in every letter case get no entry: exactly the identifiers do (every second sentence with one
+	// of its identifiers already there)
+	for i, e := range namexKeywordSentences() {
+		ids, ok := refIdentifiers(lexemes(e))
+		if !ok {
+			continue
+		}
+		tc := autoCase{expr: e}
+		if i%2 == 1 && len(ids) > 0 {
+			tc.pre = []string{strings.ToUpper(ids[len(ids)-1])}
+		}
+		tc.want = foldUnique(append(append([]string{}, tc.pre...), ids...))
+		autoCases = append(autoCases, tc)
+	}
+	for _, tc := range autoCases {
 		m.steps = 0
 		calc, out := m.Call(cctor)
 		if out.kind != "ok" {
